@@ -46,7 +46,7 @@ def bonds_dense(model, sites):
             right = int(np.prod(dims[b + 1:]))
             H += np.kron(np.kron(np.eye(left), hb), np.eye(right))
         else:
-            raise NotImplementedError
+            raise AssertionError(f'H_bond[{i}] couples the last site to the first one: not a bond of a finite open chain (must be None)')
     return H
 
 
@@ -334,6 +334,29 @@ def run(rec):
                         ok, H3 = rec.guarded('calc_H_MPO_from_bond:exception', lambda: mpo_dense(m2.calc_H_MPO_from_bond(), sites), inp)
                         if ok:
                             rec.check(np.allclose(H3, Hs, atol=tol * scale), 'H_MPO_from_bond:dense', '', inp)
+                        # grouping sites of the nearest-neighbour model - also when L is not a multiple of the group size
+                        import itertools as _it
+                        for n_group in (2, 3):
+                            if n_group >= L:
+                                continue
+
+                            def grouped_nn():
+                                from tenpy.models.model import NearestNeighborModel as NN
+                                mg = NN(lat.copy(), [None if h is None else h.copy(deep=True) for h in M.calc_H_bond()])
+                                mg.group_sites(n_group)
+                                gs_ = mg.lat.mps_sites()
+                                return bonds_dense(mg, gs_), gs_
+                            inp_g = dict(inp, group=n_group)
+                            ok, res = rec.guarded('NearestNeighborModel.group_sites:exception', grouped_nn, inp_g)
+                            if ok:
+                                Hg, gs_ = res
+                                idx = np.zeros(1, dtype=np.intp)
+                                for g in gs_:
+                                    dd = [x.dim for x in g.sites]
+                                    pg = np.array([g.leg.map_incoming_flat(list(c)) for c in _it.product(*[range(d_) for d_ in dd])])
+                                    idx = (idx[:, None] * int(np.prod(dd)) + pg[None, :]).reshape(-1)
+                                rec.check(Hg.shape == Hs.shape and np.allclose(Hg[np.ix_(idx, idx)], Hs, atol=tol * scale),
+                                          'NearestNeighborModel.group_sites:dense', f'group size {n_group}, L = {L}', inp_g)
                 # ExactDiag
                 def ed():
                     e = exact_diag.ExactDiag(M)
